@@ -191,6 +191,7 @@ func init() {
 				}()) && e.Detail["accused"] == "c.Incarnation" && e.Detail["rec"] == "rec"
 			})
 		c.Rule("alive claim about the running local node that passed the incarnation gate and is newer or differs in metadata: refuted on every path")
+		nEq := 0
 		for _, ex := range a.x.Exits {
 			ex := ex
 			if ex.Seen["TIMERDEL"] == 0 {
@@ -210,7 +211,21 @@ func init() {
 				w = fmt.Sprintf("exit at %s without refutation under {%s}", p.Pos(ex.Pos), gea.CubeString(wit))
 			}
 			c.Check("C02/alive/refute", "alive claim about the running local node that passed the incarnation gate and is newer or differs in metadata: refuted on every path", ex.Pos, ok, w)
+			// "differs" covers the whole announced identity: an equal-incarnation claim is let
+			// pass unrefuted only where metadata and all six protocol / delegate version
+			// fields were compared and found equal (a restart with changed version ranges
+			// announces the same incarnation 1 as the process before it)
+			if ex.Seen["REFUTE"] == 0 && ex.Cube[vSelf] == "T" && ex.Cube[vBoot] == "F" && ex.Cube[vOK] == "T" && ex.Cube[vLeft] != "T" {
+				nEq++
+				missing := versionFieldsNotCompared(ex.Cube)
+				if v, has := ex.Cube[aMetaEq]; !has || v != "T" {
+					missing = append([]string{"Meta"}, missing...)
+				}
+				c.Check("C02/alive/unrefuted-only-if-identical", "an alive claim about the running local node at its own incarnation goes unrefuted only if metadata and all six protocol/delegate version fields equal the local record's", ex.Pos, len(missing) == 0,
+					fmt.Sprintf("exit at %s without refutation although %v of the claim were not found equal to the record's {%s}", p.Pos(ex.Pos), missing, gea.CubeString(ex.Cube)))
+			}
 		}
+		c.Floor("unrefuted exits for claims about the running local node", nEq, 1)
 		c.existsRow(a, "C02/alive/refute-exists", "alive claim about the running local node, same address, newer or equal-with-different-metadata: a refuting path exists (delegates consenting)",
 			[]string{"REFUTE"}, []string{vOK, vSelf, vBoot, vLeft, aAddrEq, aPortCmp, vOrd, aMetaEq}, func(g getf) bool {
 				return aliveFound(g) && isT(g, vSelf) && !isT(g, vBoot) && !isT(g, vLeft) && addrSame(g) && (g(vOrd) == "GT" || (g(vOrd) == "EQ" && !isT(g, aMetaEq)))
@@ -280,6 +295,7 @@ func init() {
 		checkLeaveFlagMonotone(c, "C02")
 		checkClaimSources(c, "C02")
 		checkMerge(c, "C02")
+		checkPacketDelivery(c, "C02") // an accusation filtered out in front of its handler is never refuted
 
 		// 5. local announcements take a fresh incarnation
 		rule5 := "every local self-announcement (bootstrap alive claim) takes its incarnation from the advancing counter and is marked as bootstrap"
@@ -678,4 +694,51 @@ func linearName(s string) (map[string]int64, int64, bool) {
 	}
 	ok := walk(s, 1, 0)
 	return co, k, ok
+}
+
+var versionFields = []string{"PMin", "PMax", "PCur", "DMin", "DMax", "DCur"}
+
+// versionFieldsNotCompared lists the version fields of the record that the
+// path did not establish as equal to the claim's vector: either one equality
+// between the claim's vector and a literal holding all six fields in wire
+// order, or one equality per field with the vector's element.
+func versionFieldsNotCompared(cube map[string]string) []string {
+	have := map[string]bool{}
+	for k, v := range cube {
+		if v != "T" || !strings.HasPrefix(k, "eq(") {
+			continue
+		}
+		u := untok(k)
+		if strings.Contains(u, "c.Vsn)") || strings.Contains(u, "(c.Vsn,") {
+			// whole-vector comparison: the other operand lists the fields in order
+			pos := 0
+			okAll := true
+			for _, f := range versionFields {
+				i := strings.Index(u[pos:], "."+f)
+				if i < 0 {
+					okAll = false
+					break
+				}
+				pos += i + 1
+			}
+			if okAll {
+				for _, f := range versionFields {
+					have[f] = true
+				}
+			}
+			continue
+		}
+		for i, f := range versionFields {
+			if strings.Contains(u, fmt.Sprintf("c.Vsn[%d]", i)) && (strings.Contains(u, "."+f+",") || strings.Contains(u, "."+f+")")) {
+				have[f] = true
+			}
+		}
+	}
+	var missing []string
+	for _, f := range versionFields {
+		if !have[f] {
+			missing = append(missing, f)
+		}
+	}
+	return missing
 }
